@@ -41,16 +41,18 @@ func (i *instSync) HandleMessage(uint16, []byte) {}
 
 type passive struct{ entered chan struct{} }
 
-func (p *passive) ClassifyMsg(b []byte) (uint8, bool, error) { return s.Classify(b) }
+func (p *passive) ClassifyMsg(b []byte) (uint8, bool, error)      { return s.Classify(b) }
 func (p *passive) Init([]uint16, int, func([]byte, bool, uint16)) {}
-func (p *passive) OnMsg([]byte, uint16, bool)                  {}
+func (p *passive) OnMsg([]byte, uint16, bool)                     {}
 func (p *passive) KeyGen(ctx context.Context) ([]byte, error) {
 	close(p.entered)
 	<-ctx.Done()
 	return nil, ctx.Err()
 }
 
-type capRBC struct{ got func(m tss.RBCMessage, from uint16) }
+type capRBC struct {
+	got func(m tss.RBCMessage, from uint16)
+}
 
 func (c *capRBC) Receive(m tss.RBCMessage, from uint16) { c.got(m, from) }
 
@@ -80,7 +82,9 @@ func newAckPair() *ackPair {
 			}
 		}
 		sc := threshold.LoudScheme(uint16(i+1), world.NopLogger{}, func(uint16) tss.KeyGenerator { return be }, nil, 1, send, mem).(*threshold.Scheme)
-		sc.SyncFactory = func([]uint16, func([]byte), func([]byte, uint16)) tss.Synchronizer { return &instSync{members: []uint16{1, 2}} }
+		sc.SyncFactory = func([]uint16, func([]byte), func([]byte, uint16)) tss.Synchronizer {
+			return &instSync{members: []uint16{1, 2}}
+		}
 		sc.RBF = func(b tss.BroadcastFunc, f tss.ForwardFunc, n int) tss.ReliableBroadcast {
 			if i == 0 {
 				ap.bcast = b
@@ -162,7 +166,7 @@ func ackCase(rounds []uint8, lo, hi int) harness.Case {
 
 type memberParty struct{ m *discovery.Member }
 
-func (p *memberParty) HandleMessage(m *tss.IncMessage) { p.m.HandleMessage(m.Source, m.Data) }
+func (p *memberParty) HandleMessage(m *tss.IncMessage)                      { p.m.HandleMessage(m.Source, m.Data) }
 func (p *memberParty) Sign(context.Context, []byte, string) ([]byte, error) { return nil, nil }
 func (p *memberParty) KeyGen(context.Context, int, int) ([]byte, error)     { return nil, nil }
 func (p *memberParty) SetStoredData([]byte)                                 {}
